@@ -67,14 +67,18 @@ def generate(rng, tier):
 
 def impl(case):
     coords, shape2d, data, weights, region, shape, spacing, adjust, red, centre, drop = case["args"]
-    cs = tuple(np.array(c).reshape(shape2d) for c in coords)
-    ds = tuple(np.array(d).reshape(shape2d) for d in data)
-    ws = None if weights is None else tuple(np.array(w).reshape(shape2d) for w in weights)
+    key = case["op"][-60:]
+    cs = tuple(C.mkarr(c, shape2d, f"{key}c{i}") for i, c in enumerate(coords))
+    ds = tuple(C.mkarr(d, shape2d, f"{key}d{i}") for i, d in enumerate(data))
+    ws = None if weights is None else tuple(C.mkarr(w, shape2d, f"{key}w{i}") for i, w in enumerate(weights))
     for a in cs + ds + (ws or ()):
         a.setflags(write=False)
     br = vd.BlockReduce(REDS[red], spacing=spacing, region=region, adjust=adjust, center_coordinates=centre, shape=shape, drop_coords=drop)
     d_arg = ds[0] if len(ds) == 1 else ds
     w_arg = None if ws is None else (ws[0] if len(ws) == 1 else ws)
+    # history: the same instance is first used on a different cloud (shifted, stretched); the result on the case's cloud
+    # must not depend on that earlier call
+    C.call(br.filter, tuple(np.asarray(c) * 3.0 + 17.0 for c in cs), d_arg, w_arg)
     r = C.call(br.filter, cs, d_arg, w_arg)
     if C.is_err(r):
         return r
